@@ -57,6 +57,15 @@ def _impl(tier, seed, search):
             ok3, r3 = L.noraise('ppd', lambda: l.ppd, inp, 'ppd')
             if ok3: L.close('ppd', float(r3), float(np.linalg.norm(pp)), TOL, sc, inp)
             lam = float(g.normal() * 10)
+            # several parameters at once: column k is point(lam_k)
+            lams_ = [0.0, lam, -1.0, 2.5][: 2 + i % 3]
+            ok3, r3 = L.noraise('point(vector)', lambda: (np.asarray(l.point(lams_), float), [np.asarray(l.point(x_), float).flatten() for x_ in lams_], np.asarray(l.point(np.array(lams_)), float)), dict(inp, lam=lams_), 'point(vector of lambda)')
+            if ok3:
+                L.check('point(vector):shape', r3[0].shape == (3, len(lams_)) and r3[2].shape == (3, len(lams_)), dict(inp, lam=lams_), f'point() of {len(lams_)} parameters has shape {r3[0].shape}', sig='point(vector)')
+                if r3[0].shape == (3, len(lams_)) and r3[2].shape == (3, len(lams_)):
+                    for k_ in range(len(lams_)):
+                        L.close('point(vector)', r3[0][:, k_], r3[1][k_], TOL, max(sc, float(np.max(np.abs(r3[1][k_])))), dict(inp, lam=lams_, k=k_), what='column k of point(vector) is not point(lam_k)', sig='point(vector)')
+                        L.close('point(array)', r3[2][:, k_], r3[1][k_], TOL, max(sc, float(np.max(np.abs(r3[1][k_])))), dict(inp, lam=lams_, k=k_), sig='point(vector)')
             ok3, r3 = L.noraise('point', lambda: np.asarray(l.point(lam), float).flatten(), dict(inp, lam=lam), 'point(lambda)')
             if ok3:
                 L.close('point:on-line', dist_to_line(r3, P, d), 0.0, TOL, max(sc, abs(lam)), dict(inp, lam=lam)); L.close('point:parameter', r3, pp + lam * uw, TOL, max(sc, abs(lam)), dict(inp, lam=lam))
@@ -207,6 +216,18 @@ def _impl(tier, seed, search):
                     s2n = max(sc, float(np.max(np.abs(p0)))) * max(1.0, 1 / abs(np.dot(npl, d / np.linalg.norm(d))))
                     L.close('intersect_plane(non-unit):on-plane', float(np.dot(npl, c[0] - p0)), 0.0, TOL, s2n, dict(pinp, k=kn_, form=pform), sig='intersect_plane:non-unit-normal')
                     L.close('intersect_plane(non-unit):parameter', c[1], c[0], TOL, s2n, dict(pinp, k=kn_, form=pform), what='point(lam) with the returned parameter is not the intersection point when the plane normal is not of unit length', sig='intersect_plane:non-unit-normal')
+            # a plane object with a non-unit normal is the same plane after it has been used: a second intersection (another line) is
+            # still on it, it still contains its defining point, and its parameters are what they were
+            def reuse_():
+                pl_ = Plane.PN(p0, npl * kn_); n0_, d0_ = np.array(pl_.n, float), float(pl_.d)
+                l.intersect_plane(pl_); l2_ = Plucker.PQ(P + np.cross(npl, d) * 0.5 + npl, P + d + npl * 0.3)
+                r2_ = l2_.intersect_plane(pl_)
+                return None if r2_ is None else np.asarray(r2_.p, float).flatten(), bool(pl_.contains(p0, tol=1e-9 * max(1.0, float(np.max(np.abs(p0))), kn_) * max(1.0, kn_))), np.array(pl_.n, float), float(pl_.d), n0_, d0_
+            ok2, c = L.noraise('intersect_plane(reused plane)', reuse_, dict(pinp, k=kn_), 'intersect_plane twice with the same Plane object', sig='intersect_plane(reuse):raises')
+            if ok2:
+                if c[0] is not None: L.close('intersect_plane(reused plane):on-plane', float(np.dot(npl, c[0] - p0)), 0.0, 1e-7, max(sc, float(np.max(np.abs(p0))), float(np.max(np.abs(c[0])))), dict(pinp, k=kn_), what='the intersection with a Plane object that was used before is not on the plane', sig='intersect_plane:reused-plane')
+                L.check('intersect_plane(reused plane):contains', c[1], dict(pinp, k=kn_), 'a Plane object no longer contains its defining point after intersect_plane', sig='intersect_plane:reused-plane')
+                L.check('intersect_plane(reused plane):unchanged', np.array_equal(c[2], c[4]) and c[3] == c[5], dict(pinp, k=kn_), 'intersect_plane changed the Plane object it was given', sig='intersect_plane:reused-plane')
             # plane membership of the point it was built from
             ok2, c = L.noraise('Plane.contains', lambda: plane.contains(p0, tol=1e-9 * max(1.0, float(np.max(np.abs(p0))))), pinp, 'Plane.PN(p, n).contains(p)')
             if ok2: L.check('Plane.contains', bool(c), pinp, 'a plane built from a point and a normal does not contain that point', sig='Plane.PN:contains')
